@@ -249,6 +249,19 @@ impl<TX> Recv<TX> {
                 ),
             ));
         }
+        // The final size counts against flow control (RFC 9000 §4.5): a stream that is reset
+        // beyond the advertised stream data limit claims to have sent more than it was allowed to.
+        if final_size > self.max_stream_data {
+            return Err(QuicError::new(
+                ErrorKind::FlowControl,
+                reset_frame.frame_type().into(),
+                format!(
+                    "{} reset with final size {final_size} which exceeds the stream data limit {}",
+                    reset_frame.stream_id(),
+                    self.max_stream_data
+                ),
+            ));
+        }
         self.wake_reader();
         log_reset_event(self.stream_id, GranularStreamStates::Receive);
         Ok((final_size - self.largest) as _)
